@@ -20,7 +20,7 @@ PROPS = {
         "oracle_engine": {"hsadv": "hs", "token": "token", "resume": "sc", "clientcache": "sc"},
         "trusted": ["authentication sub-protocols are oracles (method m ran with this peer and succeeded / failed); ECDH/HKDF symbolic (symmetric free symbol)"],
         "technique": "Lean 4 theorems over client/server handshake machines with a universally quantified peer script + correspondence against scripted adversarial peers speaking raw CEDAR to the real ClientHandshake/ServerHandshake",
-        "level_text": "client_resume_required_auth / client_explicit_required_auth / server_resume_required_auth (an endpoint whose policy marks authentication REQUIRED resumes only a session that was established WITH authentication), client_required_auth, client_required_enc, client_reported_enc_is_real, client_reported_auth_is_real, client_only_offered_methods_run, server_required_auth, server_required_enc, server_reported_is_real, decided_enc_is_keyed: for every local policy and EVERY peer (all field values, all bitmask replies, any key material, any post-auth ad) — kernel-checked over the model. Tied to the code by the hsadv engine: both roles x 4x4 policies (+integrity) x method shapes x the property's deviation catalogue + random peers; the scripted peer records which exchanges really completed and the harness reads the stream's real encryption state.",
+        "level_text": "client_resume_required_auth / client_explicit_required_auth / server_resume_required_auth (an endpoint whose policy marks authentication REQUIRED resumes only a session that was established WITH authentication), client_required_auth, client_required_enc, client_reported_enc_is_real, client_reported_auth_is_real, client_only_offered_methods_run, server_required_auth, server_required_enc, server_reported_is_real, decided_enc_is_keyed: for every local policy and EVERY peer (all field values, all bitmask replies, any key material, any post-auth ad) — kernel-checked over the model. Tied to the code by the hsadv engine: both roles x 4x4 policies (+integrity) x method shapes x the property's deviation catalogue + random peers; the scripted peer records which exchanges really completed and the harness reads the stream's real encryption state. Engines also send a canary after every successful handshake and re-open every protected frame with an independent codec under the reported key (all later traffic protected), read which method completed from a wire tap (reported method with two usable methods), and compare the reported Encryption with the stream state on both ends, resumed handshakes included.",
         "level_note": "Resumed handshakes: that REQUIRED authentication is honoured on resumption is proved here over the session-cache model and exercised by the resume and clientcache engines (which therefore also run under this check); key possession and revival are C06. Sub-protocol soundness (did a 'successful' method deserve to succeed) is C11/C18; because C03's theorems assume it, the token engine (C11) also runs under this check and its violations count here. Only CLAIMTOBE/PASSWORD/NONE/TOKEN(no token)/unknown names are exercised on the wire; the theorems cover all methods via the oracle abstraction.",
         "assumptions": ["an authentication sub-protocol reports success only if it completed (C11, C18)"],
     },
@@ -30,7 +30,7 @@ PROPS = {
         "oracle_engine": {"relay": "stream"},
         "trusted": [SYMBOLIC_CRYPTO],
         "technique": "Lean 4 theorems over the stream model's digest tracking and first-frame AAD (free hash constructor) + correspondence with in-transit edits of cleartext frames at the stream level and a byte-editing relay between two real handshaking endpoints",
-        "level_text": "transcript_determines_frames (the bytes fed to a digest determine the SEQUENCE of frames - number, flags, lengths, payloads - so splits, merges, inserted empty frames and rewritten end flags change the transcript), sent_frames_are_fed / received_frames_are_fed (every cleartext frame before key installation, empty ones included, is hashed header+payload), transcript_binding (accepting a sender's first protected frame forces the receiver's (received, sent) digests to equal the sender's (sent, received)), same_digest_same_bytes, tamper_kills_first_frame: kernel-checked. Tied to the code by the relay engine: (1) stream level, model-compared: cleartext frames edited in transit (bit flips, flag flips, empty-frame insertion, removal, splitting, appended bytes) then keys installed and a protected message each way; (2) whole handshakes (no authentication, CLAIMTOBE, resumed) through a relay editing every frame of the transcript (byte offsets x substitutes, insertion, removal, splitting).",
+        "level_text": "transcript_determines_frames (the bytes fed to a digest determine the SEQUENCE of frames - number, flags, lengths, payloads - so splits, merges, inserted empty frames and rewritten end flags change the transcript), sent_frames_are_fed / received_frames_are_fed (every cleartext frame before key installation, empty ones included, is hashed header+payload), transcript_binding (accepting a sender's first protected frame forces the receiver's (received, sent) digests to equal the sender's (sent, received)), same_digest_same_bytes, tamper_kills_first_frame: kernel-checked. Tied to the code by the relay engine: (1) stream level, model-compared: cleartext frames edited in transit (bit flips, flag flips, empty-frame insertion, removal, splitting, appended bytes) then keys installed and a protected message each way; (2) whole handshakes (no authentication, CLAIMTOBE, resumed) through a relay editing every frame of the transcript (byte offsets x substitutes, insertion, removal, splitting). accept_means_same_frames (if the receiver accepts the first protected frame, the lists of cleartext frames the two ends saw in that direction are EQUAL - composition of transcript_binding, *_frames_are_fed and transcript_determines_frames; helpers sentIs_step, recvdIs_step, setKey_keeps_digests, digestOf_inj). The relay engine also runs TOKEN and FS handshakes, checks the resumed shape resumed, and merges adjacent cleartext frames.",
         "level_note": "Downgrade to a plaintext session is outside C04's hypothesis (C03/C10). Plain ReceiveFrame (GetSecret/GetFile) does not hash a zero-length frame: declared exception, fails closed. TOKEN-authenticated shapes are exercised by the C11 engine, not the relay.",
         "assumptions": ["SHA-256 collision-free (free constructor)"],
     },
@@ -71,7 +71,7 @@ PROPS = {
         "oracle_engine": {"matrix": "hs"},
         "trusted": ["ECDH/HKDF symbolic; credentials of a method modelled as a predicate credOK"],
         "technique": "Lean 4 theorems (decision table = negotiateSecurity for all 4^4 levels by kernel evaluation, lifted to arbitrary lists; agreement of two honest machines) + exhaustive correspondence of two real endpoints over the full matrix x list shapes",
-        "level_text": "core_is_the_code (the model's level logic EQUALS the definition tools/gen translates statement by statement from security.negotiateSecurity on every run, for all level strings), honest_matches_spec (negotiateSecurity fails / authenticates / encrypts exactly per the property's table, all 4^4 level combinations x existence of a usable method/cipher), negotiate_is_core + negotiated_method_common (lifting to arbitrary lists; unimplemented methods never count), client_view_consistent, jointLoop_success, retry_loop_complete + honest_auth_complete (the retry loop of two honest endpoints ends in success with a working method whenever one exists, any orders, any number of failing methods first), honest_agree (same auth/enc outcome, session id, key, exchanges). Tied to the code by the matrix engine: two real endpoints, all 256 cells x 5-8 list/cipher shapes, a message each way after success, compared with honestRun and with an independently written table.",
+        "level_text": "core_is_the_code (the model's level logic EQUALS the definition tools/gen translates statement by statement from security.negotiateSecurity on every run, for all level strings), honest_matches_spec (negotiateSecurity fails / authenticates / encrypts exactly per the property's table, all 4^4 level combinations x existence of a usable method/cipher), negotiate_is_core + negotiated_method_common (lifting to arbitrary lists; unimplemented methods never count), client_view_consistent, jointLoop_success, retry_loop_complete + honest_auth_complete (the retry loop of two honest endpoints ends in success with a working method whenever one exists, any orders, any number of failing methods first), honest_agree (same auth/enc outcome, session id, key, exchanges). Tied to the code by the matrix engine: two real endpoints, all 256 cells x 5-8 list/cipher shapes, a message each way after success, compared with honestRun and with an independently written table. honest_run_matches_table (the whole honest run, not only the level core, succeeds iff the table does not say fail), server_denies_iff + client_reads_denial (on failure the server SENDS a denial and the client acts on that message), server_mints_sid + client_learns_sid (the session id is the server's draw, the client's is read from the post-authentication ad). The matrix engine detects the denial on the wire (not in error text), varies integrity, empty server lists and lists naming both SCITOKENS and IDTOKENS, shapes whose first common method fails on the wire, and compares user and method between the two ends.",
         "level_note": "Completeness of the bitmask retry loop is proved (retry_loop_complete, honest_auth_complete: success whenever some offered method works) for method sets with distinct single-bit mask values; SCITOKENS and IDTOKENS share one bit, so lists containing both are covered by the matrix engine only; methods exercised on the wire: CLAIMTOBE, PASSWORD, NONE.",
         "assumptions": ["credentials: CLAIMTOBE always succeeds between the two test endpoints"],
     },
@@ -180,7 +180,7 @@ PROPS["C11"] = {'assumptions': ['HMAC-SHA1/HMAC-SHA256/HKDF-SHA256 are unforgeab
                "beyond +-4e18 (Go's float->int64 conversion is platform-defined) are compared with the model but carry no property claim; the client's choice "
                'among several token sources (TokenFile/TokenDir, issuer filtering) is outside the model - only the directly configured token is driven; '
                'SessionKey derivation (hkdf of the public RB) is not part of C11; strings in the exchange are NUL-free (C strings).',
- 'level_text': 'server_accept_iff (accept <=> message 1 = OK,id,token,RA with no trailing bytes; token of two segments under a held key, now < exp, iat >= now '
+ 'level_text': 'server_accept_iff (accept <=> message 1 = OK,id,token,RA with no trailing bytes; token of two segments under a held key, now < exp, iat >= now  replay_rejected_server / replay_rejected_client (a recorded exchange does not verify against fresh nonces); the engine checks all RA/RB of a run pairwise distinct, replays recorded honest exchanges into fresh endpoints, generates nbf, varied key files and subjects.'
                "- maxAge, non-empty string sub; message 3 = OK, id = sub, RB echo = own RB, proof = HMAC_K(sub|0|RB) with K derived from the server's own "
                'recomputation of the token signature, no trailing bytes; recorded identity = user part of sub, independent of the announced id), '
                'identity_from_token, possession_server / possession_client (a peer whose proof bytes are terms it can build knows the signature or relays a '
@@ -244,7 +244,7 @@ PROPS["C19"] = {'assumptions': ['net.Conn.Close makes a pending Read/Write retur
                'run; two cedar endpoints cannot complete SSL with each other, so SSL runs as the failing first method of a fallback and alone (ends in its own '
                'error). After the entry-guard fix the connection is closed at all three cancellation positions; in the stop() window the close is asynchronous '
                '(watcher goroutine).',
- 'level_text': 'unblocks (blocked => the context has not fired, any operation, any environment), cancelled_before, stall_cancel_during / stall_cancel_before / '
+ 'level_text': 'unblocks (blocked => the context has not fired, any operation, any environment), cancelled_before, stall_cancel_during / stall_cancel_before /  no_contextless_blocking (regenerated table of calls in security/ to blocking APIs that take no context is within a justified allow-list: Kerberos GetServiceTicket is the one declared open site) + no_contextless_blocking_prefix_fails (the pre-fix table violates it).'
                "cancel_in_stop_window (every k, every prefix, both error kinds), plain_error_is_ctx (all-abort operations return exactly the context's error "
                'once it has fired), closed_on_cancel (Close has run or the watcher was started, all three positions), guard_without_close_leaves_open (record '
                'of the defect: before the fix the entry guard returned with the connection open), never_cancellable_adds_nothing / unfired_adds_nothing '
